@@ -347,6 +347,13 @@ func (s *Sim) Release(t *Task) {
 	t.wake <- struct{}{}
 }
 
+// Done reports whether the task has finished (returned, panicked or was torn down).
+func (t *Task) Done() bool {
+	t.sim.mu.Lock()
+	defer t.sim.mu.Unlock()
+	return t.state == stDone
+}
+
 // SiteOf returns a printable description of the site a task is parked at.
 func (t *Task) SiteName() string {
 	if t.Site < 0 || t.Site >= len(Sites) {
